@@ -5,7 +5,7 @@
    Not proved for unbounded histories (bounded kernel sweep + oracle): the entries of the boundary
    operators against faces(), cofaces as the inverse of faces, basis = points of the closure, d.d = 0. *)
 From Coq Require Import String ZArith Bool Arith List.
-From SV Require Import Names NamesFacts ListFacts Rep Fresh Complex Atomic RepInv Reach Homology Filtration Gen World Small Sweeps Shapes ShapesReach.
+From SV Require Import Names NamesFacts ListFacts Rep Fresh Complex Atomic RepInv Reach Homology Filtration Gen World Small Sweeps Shapes ShapesReach Incidence.
 Import ListNotations.
 
 (* indexOf is the simplex's position in the listing of its order, orderOf that order *)
@@ -81,3 +81,18 @@ Qed.
 Print Assumptions C03_shapes_kept_by_every_public_mutator.
 (* the invariant is not vacuous: it unfolds to concrete shape statements (see Shapes.v) and the
    sweep above evaluates the same shapes on every complex on <= 4 points *)
+
+(* ENTRIES, every history: row i / column j of the order-(k+1) boundary operator stand for the i-th
+   k-simplex and the j-th (k+1)-simplex of the listings, and the entry is 1 exactly where the row
+   simplex is a face of the column simplex *)
+Theorem C03_boundary_entries :
+  forall r k i j s t, sinv r ->
+  nth_error (simplicesOfOrder r (S k)) j = Some s -> nth_error (simplicesOfOrder r k) i = Some t ->
+  (mentry (boundaryOperator r (S k)) i j = true <-> In t (faces r s)).
+Proof. exact boundary_entries. Qed.
+Print Assumptions C03_boundary_entries.
+(* cofaces is the exact inverse relation of faces *)
+Theorem C03_cofaces_inverse_of_faces :
+  forall r, sinv r -> forall s t, In t (faces r s) <-> In s (cofaces r t).
+Proof. exact cofaces_inverse_of_faces. Qed.
+Print Assumptions C03_cofaces_inverse_of_faces.
